@@ -62,6 +62,50 @@ extern "C" {
     fn Dr_destroy(this: Box<ffi::Dr>);
 }
 
+/// Rust-owned write buffers created with room to spare and then outgrown: no write may land beyond the capacity the
+/// buffer has at that moment (`len <= cap` throughout, contents exact) — the grid covers empty, partly filled and
+/// exactly full buffers at the moment of growth.
+fn write_growth_probe(rep: &mut Report) {
+    // in a child process: a heap overrun may well kill the process instead of being observed
+    let exe = std::env::current_exe().unwrap();
+    let out = std::process::Command::new(exe).arg("C03-growth-child").output();
+    rep.oracle_runs += 1;
+    match out {
+        Err(e) => rep.notes.push(format!("write-growth probe could not be started: {e}")),
+        Ok(o) => {
+            let text = String::from_utf8_lossy(&o.stdout);
+            let mut last = String::new();
+            for l in text.lines() {
+                if let Some(c) = l.strip_prefix("case ") { last = c.to_string(); rep.count("probe:write-growth"); }
+                if let Some(f) = l.strip_prefix("fail ") {
+                    rep.oracle_fail(&format!("(c03 probe write-growth {last})"), "a write into a Rust-owned buffer goes wrong after growth", json!({"detail": f}));
+                }
+            }
+            if !o.status.success() {
+                rep.oracle_fail(&format!("(c03 probe write-growth {last})"), "the process died while writing into a Rust-owned buffer that had to grow (memory error)", json!({"status": format!("{}", o.status), "stderr": String::from_utf8_lossy(&o.stderr).lines().take(4).collect::<Vec<_>>()}));
+            }
+        }
+    }
+}
+
+pub fn growth_child() {
+    let pieces = ["", "a", "hello", "world!", "0123456789abcdef", "a-much-longer-piece-than-anything-written-before-it-0123456789"];
+    for cap in [0usize, 1, 3, 5, 8, 10, 16, 64] {
+        for a in pieces {
+            for b in pieces {
+                for c in ["", "tail"] {
+                    println!("case cap={cap} pieces={a:?},{b:?},{c:?}");
+                    let case = crate::c12::Case::Rust { cap, chunks: vec![a.to_string(), b.to_string(), c.to_string()] };
+                    let (_line, fails) = crate::c12::run_real(&case);
+                    for (what, detail) in fails {
+                        println!("fail {what} {detail}");
+                    }
+                }
+            }
+        }
+    }
+}
+
 /// Results and options whose two arms differ in whether they own anything: only one arm has drop glue. Whatever the
 /// state, dropping or converting the value releases exactly the payload it holds, once.
 fn asymmetric_payload_probe(rep: &mut Report) {
@@ -365,6 +409,7 @@ pub fn main(args: &[String]) {
     }
     // the C++ wrapper layer: a callback that Rust stores and calls after the setter returned (under ASan)
     crate::c02::special_methods_probe(&mut rep);
+    write_growth_probe(&mut rep);
     asymmetric_payload_probe(&mut rep);
     rep.print();
 }
